@@ -54,7 +54,14 @@ func c01World(tp *Tape, env *Env) (*Plan, *Violation) {
 		cfg.Handlers = drawHandlers(tp, 3)
 	}
 	g := &gen{tp: tp, cfg: cfg}
-	prog := g.program()
+	var prog *Program
+	if tp.Chance(20, "hubworld") {
+		cfg.WJump, cfg.WJumpE, cfg.WStop = 0, 0, 0
+		prog = g.hubProgram()
+		env.St.inc("worlds.hub_loop", 1)
+	} else {
+		prog = g.program()
+	}
 	layout := genLayout(tp)
 	w := World{Readers: distribute(tp, prog, layout, 3)}
 	w.Host = HostSpec{Storer: []string{"default", "mem", "rec"}[tp.Int(0, 2, "storer")], Probes: true, Seed: "s1", Handlers: cfg.Handlers}
@@ -140,6 +147,7 @@ func c01World(tp *Tape, env *Env) (*Plan, *Violation) {
 		}
 		plan.Ops = ops
 		plan.Extra = map[string]any{"choices": leafChoices[li], "exhaustive_paths": exhaustive}
+		journal(plan)
 		if v := c01Exec(plan, bubble, env.St); v != nil {
 			return plan, v
 		}
